@@ -54,11 +54,15 @@ if rc != 0:
 else:
     try:
         env["VX_REPO"] = wt
-        rc, out, dt = run("./check %s --tier quick -no-evidence"%prop, "/verif", timeout=3000)
+        meta["check"] = {"detected": False, "runs": []}
+        for pr in prop.split(","):
+            rc, out, dt = run("./check %s --tier quick -no-evidence"%pr, "/verif", timeout=3000)
+            lines = [l for l in out.splitlines() if l.startswith(("VIOLATION","gosmx:","KNOWN","ENCOD","INCONCL","VACUOUS","BOUND"))]
+            meta["check"]["runs"].append({"cmd": "./check %s --tier quick"%pr, "exit": rc, "seconds": round(dt,1), "detected": rc == 1, "lines": lines[:12]})
+            meta["check"]["detected"] |= (rc == 1)
+            print("CHECK %s exit=%d detected=%s (%.0fs)"%(pr, rc, rc==1, dt))
+            for l in lines[:6]: print("   ", l[:200])
     finally:
         run("git checkout -- .", wt)
-    lines = [l for l in out.splitlines() if l.startswith(("VIOLATION","gosmx:","KNOWN","ENCOD","INCONCL","VACUOUS","BOUND"))]
-    meta["check"] = {"cmd": "./check %s --tier quick"%prop, "exit": rc, "seconds": round(dt,1), "detected": rc == 1, "lines": lines[:12]}
-    print("CHECK exit=%d detected=%s (%.0fs)"%(rc, rc==1, dt))
-    for l in lines[:6]: print("   ", l[:200])
+meta["property"] = prop.split(",")[0]
 json.dump(meta, open(os.path.join(dst,"meta.json"),"w"), indent=1)
